@@ -16,6 +16,11 @@
 #include <gmssl/x509.h>
 #include <gmssl/error.h>
 
+// ctime() keeps its result in static storage shared by all threads
+#ifdef WIN32
+#define ctime_r(t, buf) (ctime_s((buf), 26, (t)) == 0 ? (buf) : NULL)
+#endif
+
 
 const char *tls_record_type_name(int type)
 {
@@ -323,13 +328,14 @@ const char *tls_signature_scheme_name(int scheme)
 int tls_random_print(FILE *fp, const uint8_t random[32], int format, int indent)
 {
 	time_t gmt_unix_time = 0;
+	char timebuf[26];
 	const uint8_t *cp = random;
 	size_t len = 4;
 
 	tls_uint32_from_bytes((uint32_t *)&gmt_unix_time, &cp, &len);
 	format_print(fp, format, indent, "Random\n");
 	indent += 4;
-	format_print(fp, format, indent, "gmt_unix_time : %s", ctime(&gmt_unix_time));
+	format_print(fp, format, indent, "gmt_unix_time : %s", ctime_r(&gmt_unix_time, timebuf));
 	format_bytes(fp, format, indent, "random", random + 4, 28);
 	return 1;
 }
